@@ -88,9 +88,15 @@ def cases_for(pid, tier, seed):
         gpts = [gen.q(-1), gen.q(0), gen.q(1, 2), gen.q(1), gen.q(2)] if quick else gen.GT
         for t in bu:
             add(t, pts=gen.grid(J.variables(t), gpts))
+            if J.size(t) <= 9:
+                cases[-1]["early"] = True
         for t in rnd.sample(bu, 300 if quick else len(bu)):
             if J.size(t) >= 4:
                 add(t, share=True, pts=gen.grid(J.variables(t), gpts))
+        # the canonical witnesses of the known finding KF-1 (early route raises where the expression is defined)
+        for t in (J.KUn("NthRoot", J.KUn("NthPower", gen.X, 2), 4), J.KUn("NthRoot", J.KUn("NthPower", gen.X, 2), 2), J.Add(J.KUn("NthRoot", J.KUn("NthPower", gen.X, 4), 2), gen.Y)):
+            add(t, pts=gen.grid(J.variables(t), [gen.q(-3), gen.q(2)]))
+            cases[-1]["early"] = True
         u2 = gen.over(gen.d1q(), ks=(1, 2, 3, 4), bases=[gen.E_, gen.q(2)], exp_bases=[gen.E_, gen.q(1)])
         for t in (rnd.sample(u2, 1200) if quick else u2):
             add(t)
@@ -113,13 +119,24 @@ def run_impl(cases):
         row = {"i": i, "h": heap, "pts": c["pts"], "q": qv, "dvar": dvar, "outs": [], "svs": [], "dv": [], "at": [],
                "dctor": "ok" if dctor.get("k") == "ok" else "raised"}
         varobj = {v: S.Variable(v) for v in qv}
+        # long-lived late objects, reused for every point of the case (and queried twice per point, see below)
+        lived = {v: J.outcome_of(lambda: S.Partial(root, v), conv=lambda o: o) for v in qv}
+        lived_d = J.outcome_of(lambda: S.Derivative(root), conv=lambda o: o) if len(vs) <= 1 else None
+        # EARLY long-lived Partials (symbolic path) - only where the check asks for them (C07: early or late)
+        early = {v: J.outcome_of(lambda: S.Partial(root, v, compute_early=True), conv=lambda o: o, timeout=10) for v in qv} if c.get("early") else {}
+        allpts = []
+        for p in c["pts"]:
+            try:
+                allpts.append(J.build_point(p))
+            except Exception:
+                allpts.append(None)
         for j, p in enumerate(c["pts"]):
             try:
                 pt = J.build_point(p)
             except Exception as exc:       # a legal coordinate name the Point constructor cannot take: every route fails with it
                 bad = {"k": "PyError", "t": type(exc).__name__}
                 row["at"].append(bad)
-                row["outs"].append([{"pa": bad, "ld": bad, "da": bad} for _ in qv])
+                row["outs"].append([{"pa": bad, "pa2": bad, "pe": {"k": "na"}, "ld": bad, "da": bad} for _ in qv])
                 row["svs"].append([{"k": "ill"} for _ in qv])
                 row["dv"].append(bad if len(vs) <= 1 else {"k": "na"})
                 continue
@@ -144,7 +161,19 @@ def run_impl(cases):
                 da_obj = r
             for t, v in enumerate(qv):
                 varg = varobj[v] if (j + t) % 2 == 0 else v
-                o = {"pa": J.outcome_of(lambda: S.Partial(root, varg).at(pt)),
+                # A-B-A on a long-lived object: query, evaluate the expression at ANOTHER point, query again
+                other = allpts[(j + 1) % len(allpts)]
+                lp = lived[v]
+                if isinstance(lp, dict):
+                    pa2 = lp
+                else:
+                    J.outcome_of(lambda: lp.at(pt))
+                    if other is not None:
+                        J.outcome_of(lambda: root.at(other))
+                    pa2 = J.outcome_of(lambda: lp.at(pt))
+                ep = early.get(v)
+                pe = {"k": "na"} if ep is None else (ep if isinstance(ep, dict) else J.outcome_of(lambda: ep.at(pt)))
+                o = {"pa": J.outcome_of(lambda: S.Partial(root, varg).at(pt)), "pa2": pa2, "pe": pe,
                      "ld": ld_err if ld_err else J.outcome_of(lambda: ld_obj.component(varg)),
                      "da": da_err if da_err else J.outcome_of(lambda: da_obj.component(varg))}
                 per_v.append(o)
@@ -208,6 +237,7 @@ def collect(rep, pid, tier, seed):
     counts = {"ok": 0, "fl": 0, "drift": 0, "skip_illcond": 0, "fl_decided": 0, "sv_crosschecked": 0, "skipped_out_of_range": 0}
     nontrivial = set()
     nq = 0
+    early_pending = []
     for case, row in zip(cases, rows):
         for j, per_v in enumerate(verd[row["i"]]):
             p = case["pts"][j]
@@ -224,7 +254,7 @@ def collect(rep, pid, tier, seed):
                         rt = tg[3:]
                         counts["fl"] += 1
                         o = row["dv"][j] if rt == "dv" else row["outs"][j][t][rt]
-                        ex = float_layer(case, p, v, o, "C03" if rt in ("pa", "dv") else "C04")
+                        ex = float_layer(case, p, v, o, "C03" if rt in ("pa", "pa2", "dv") else "C06" if rt == "pe" else "C04")
                         if "skip_illcond" in ex:
                             counts["skip_illcond"] += 1
                         else:
@@ -245,12 +275,32 @@ def collect(rep, pid, tier, seed):
                     prop = clause[:3]
                     desc = {"expr": J.show(case["tree"]), "tree": case["tree"], "shared": case["share"], "point": p, "variable": v,
                             "route": rt, "outcome": row["dv"][j] if rt == "dv" else row["outs"][j][t][rt]}
-                    if prop == pid:
+                    if rt == "pe":
+                        early_pending.append((clause, desc, case["tree"], v))
+                    elif prop == pid:
                         rep.violation(clause + "@" + rt, desc)
                     else:
                         rep.other[clause] = rep.other.get(clause, 0) + 1
                 if J.size(case["tree"]) >= 2:
                     nontrivial.add((J.key(case["tree"]), json.dumps(p, sort_keys=True), v))
+    if early_pending:
+        # violations on the EARLY (symbolic) route: attributable to the named finding KF-1?
+        import eng_reduce
+        S = J.sm()
+        keys, trees_attr = {}, []
+        for clause, desc, tree, v in early_pending:
+            k = (J.key(tree), v)
+            if k not in keys:
+                keys[k] = len(trees_attr)
+                trees_attr.append(J.expr_to_E(J.build_tree(tree)._synthetic_partial(v)))
+        attr = eng_reduce.kf1_attribution(trees_attr)
+        for clause, desc, tree, v in early_pending:
+            if attr[keys[(J.key(tree), v)]]:
+                rep.known("KF-1", "early Partial.at of an expression whose symbolic partial is simplified with the rewrite NthRoot(NthPower(u,m),n) => NthPower(NthRoot(u,n),m), n and m even")
+            elif clause[:3] == pid:
+                rep.violation(clause + "@pe", desc)
+            else:
+                rep.other[clause] = rep.other.get(clause, 0) + 1
     smp = []
     for c, r in list(zip(cases, rows))[:: max(1, len(cases) // 6)][:6]:
         if c["pts"]:
